@@ -80,7 +80,9 @@ class PopenSpawn(SpawnBase):
             timeout = 1e6
 
         t0 = time.time()
-        while (time.time() - t0) < timeout and size and len(buf) < size:
+        polled = False
+        while (not polled or (time.time() - t0) < timeout) and size and len(buf) < size:
+            polled = True
             try:
                 incoming = self._read_queue.get_nowait()
             except Empty:
